@@ -222,11 +222,12 @@ theorem stepOn_cont_mu {c c' : Core} {buf b' : Bytes} (h : stepOn c buf = .cont 
       simp at h; obtain ⟨rfl, rfl⟩ := h; simp [mu, hg, rank]; omega
     · rename_i h' rest hi
       have := leaderIter_done hi
+      unfold headDone at h
       split at h
       · obtain ⟨rfl, hg'⟩ := reqHeadDone_cont h
-        simp [mu, hg, hg', rank]; omega
+        unfold mu; rw [hg']; simp [hg, rank]; omega
       · obtain ⟨rfl, hg'⟩ := rspHeadDone_cont h
-        simp [mu, hg, hg', rank]; omega
+        unfold mu; rw [hg']; simp [hg, rank]; omega
   case h_9 hg =>   -- chunkSize
     split at h
     · simp at h
@@ -259,7 +260,7 @@ theorem stepOn_cont_mu {c c' : Core} {buf b' : Bytes} (h : stepOn c buf = .cont 
       split at h
       · simp at h
       · obtain ⟨rfl, hg'⟩ := chunkDone_cont h
-        simp [mu, hg, hg', rank]; omega
+        unfold mu; rw [hg']; simp [hg, rank]; omega
   case h_13 hg =>  -- bodyLength
     simp only [] at h
     split at h
@@ -268,5 +269,176 @@ theorem stepOn_cont_mu {c c' : Core} {buf b' : Bytes} (h : stepOn c buf = .cont 
   case h_14 hg =>  -- bodyClose
     simp only [] at h
     split at h <;> simp at h
+
+/-! ### fuel -/
+
+theorem pump_fuel : ∀ (n m : Nat) (c : Core) (buf : Bytes), mu c buf < n → mu c buf < m →
+    pump n c buf = pump m c buf := by
+  intro n
+  induction n with
+  | zero => intro m c buf h; omega
+  | succ n ih =>
+    intro m c buf hn hm
+    cases m with
+    | zero => omega
+    | succ m =>
+      simp only [pump]
+      cases hs : stepOn c buf with
+      | stop c' b' => rfl
+      | cont c' b' =>
+        have := stepOn_cont_mu hs
+        exact ih m c' b' (by omega) (by omega)
+
+/-- the loop of one `parse()` call, fuel-free -/
+def run (c : Core) (buf : Bytes) : St := pump (mu c buf + 1) c buf
+
+theorem run_unfold (c : Core) (buf : Bytes) :
+    run c buf = match stepOn c buf with
+      | .stop c' b' => { core := c', msg := b' }
+      | .cont c' b' => run c' b' := by
+  unfold run
+  rw [pump]
+  cases hs : stepOn c buf with
+  | stop c' b' => rfl
+  | cont c' b' =>
+    have := stepOn_cont_mu hs
+    exact pump_fuel _ _ c' b' (by omega) (by omega)
+
+theorem rank_le (g : Gen) : rank g ≤ 3 := by cases g <;> simp [rank]
+
+theorem pump_fuelFor (c : Core) (buf : Bytes) : pump (fuelFor buf) c buf = run c buf := by
+  apply pump_fuel
+  · have := rank_le c.gen; simp [mu, fuelFor]; omega
+  · omega
+
+/-- `parse()` with the fuel-free loop -/
+theorem parse_eq (s : St) :
+    parse s = if resumeCheck s.core s.msg then
+        (match raise s.core .prematureClosure s.msg with
+         | .stop c b => { core := c, msg := b }
+         | .cont c b => { core := c, msg := b })
+      else run s.core s.msg := by
+  unfold parse; rw [pump_fuelFor]; rfl
+
+/-! ### scripts: a stream as a sequence of segments the parser consumes one after the other -/
+
+/-- one segment of the stream: its bytes, the parser cores that may be waiting for it, and the
+core that has consumed it -/
+structure Elem where
+  seg : Bytes
+  W : Core → Prop
+  next : Core
+
+/-- the parser consumes the complete segment whatever follows it, and waits (staying among the
+cores `W`) on every proper prefix of it -/
+def Elem.ok (e : Elem) : Prop :=
+  e.seg ≠ [] ∧
+  (∀ c, e.W c → ∀ tail, run c (e.seg ++ tail) = run e.next tail) ∧
+  (∀ c, e.W c → ∀ p, p <+: e.seg → p ≠ e.seg → ∃ c', e.W c' ∧ run c p = { core := c', msg := p }) ∧
+  (∀ c, e.W c → ∀ buf, resumeCheck c buf = false)
+
+def Chain (f : Core) : Core → List Elem → Prop
+  | c, [] => c = f
+  | c, e :: es => e.W c ∧ e.ok ∧ Chain f e.next es
+
+def segsOf : List Elem → Bytes
+  | [] => []
+  | e :: es => e.seg ++ segsOf es
+
+/-- where the parser is after some receives: waiting inside the first segment of a remaining
+chain, or past the script (`T t` = the state that has seen `t` after the script).
+`R` = the bytes still to come. -/
+def Good (f : Core) (T : Bytes → St) (rest : Bytes) (s : St) (R : Bytes) : Prop :=
+  (∃ c e es, s.core = c ∧ Chain f c (e :: es) ∧ s.msg <+: e.seg ∧ s.msg ≠ e.seg ∧
+      s.msg ++ R = segsOf (e :: es) ++ rest) ∨
+  (∃ t, s = T t ∧ t ++ R = rest)
+
+theorem run_chain {f : Core} {T : Bytes → St} {rest : Bytes} (hT1 : ∀ t, run f t = T t) :
+    ∀ (es : List Elem) (e : Elem) (c : Core) (B R : Bytes), Chain f c (e :: es) →
+      B ++ R = segsOf (e :: es) ++ rest → Good f T rest (run c B) R := by
+  intro es
+  induction es with
+  | nil =>
+    intro e c B R hch hB
+    obtain ⟨hW, hok, hf⟩ := hch
+    simp only [Chain] at hf
+    simp only [segsOf, List.append_nil] at hB
+    have hp1 : B <+: e.seg ++ rest := ⟨R, hB⟩
+    have hp2 : e.seg <+: e.seg ++ rest := List.prefix_append _ _
+    rcases List.prefix_or_prefix_of_prefix hp1 hp2 with h | h
+    · by_cases heq : B = e.seg
+      · subst heq
+        have := hok.2.1 c hW []
+        simp only [List.append_nil] at this
+        rw [this, hf, hT1]
+        exact Or.inr ⟨[], rfl, by simpa using hB⟩
+      · obtain ⟨c', hW', hr⟩ := hok.2.2.1 c hW B h heq
+        rw [hr]
+        exact Or.inl ⟨c', e, [], rfl, ⟨hW', hok, by simp [Chain, hf]⟩, h, heq, by simpa [segsOf] using hB⟩
+    · obtain ⟨tail, rfl⟩ := h
+      rw [hok.2.1 c hW tail, hf, hT1]
+      refine Or.inr ⟨tail, rfl, ?_⟩
+      simpa [List.append_assoc] using hB
+  | cons e2 es ih =>
+    intro e c B R hch hB
+    obtain ⟨hW, hok, hnext⟩ := hch
+    have hp1 : B <+: e.seg ++ (segsOf (e2 :: es) ++ rest) := ⟨R, by simpa [segsOf, List.append_assoc] using hB⟩
+    have hp2 : e.seg <+: e.seg ++ (segsOf (e2 :: es) ++ rest) := List.prefix_append _ _
+    rcases List.prefix_or_prefix_of_prefix hp1 hp2 with h | h
+    · by_cases heq : B = e.seg
+      · subst heq
+        have := hok.2.1 c hW []
+        simp only [List.append_nil] at this
+        rw [this]
+        apply ih e2 e.next [] R hnext
+        simpa [segsOf, List.append_assoc] using hB
+      · obtain ⟨c', hW', hr⟩ := hok.2.2.1 c hW B h heq
+        rw [hr]
+        exact Or.inl ⟨c', e, e2 :: es, rfl, ⟨hW', hok, hnext⟩, h, heq, hB⟩
+    · obtain ⟨tail, rfl⟩ := h
+      rw [hok.2.1 c hW tail]
+      apply ih e2 e.next tail R hnext
+      simpa [segsOf, List.append_assoc] using hB
+
+theorem feed_good {f : Core} {T : Bytes → St} {rest : Bytes} (hT1 : ∀ t, run f t = T t)
+    (hT2 : ∀ t x, feed (T t) x = T (t ++ x)) {s : St} {x R : Bytes}
+    (h : Good f T rest s (x ++ R)) : Good f T rest (feed s x) R := by
+  rcases h with ⟨c, e, es, hc, hch, _, _, hB⟩ | ⟨t, rfl, ht⟩
+  · have hrc := hch.2.1.2.2.2 c hch.1 (s.msg ++ x)
+    have : feed s x = run c (s.msg ++ x) := by
+      unfold feed; rw [parse_eq]; simp [hc, hrc]
+    rw [this]
+    exact run_chain hT1 es e c (s.msg ++ x) R hch (by simpa [List.append_assoc] using hB)
+  · rw [hT2]
+    exact Or.inr ⟨t ++ x, rfl, by simpa [List.append_assoc] using ht⟩
+
+theorem feedAll_good {f : Core} {T : Bytes → St} {rest : Bytes} (hT1 : ∀ t, run f t = T t)
+    (hT2 : ∀ t x, feed (T t) x = T (t ++ x)) (ps : List Bytes) (s : St) (R : Bytes)
+    (h : Good f T rest s (ps.flatten ++ R)) : Good f T rest (feedAll s ps) R := by
+  induction ps generalizing s with
+  | nil => simpa [feedAll] using h
+  | cons p ps ih =>
+    simp only [feedAll, List.foldl_cons]
+    apply ih
+    apply feed_good hT1 hT2
+    simpa [List.append_assoc] using h
+
+/-- **Script theorem.**  If the stream is `segs ++ rest` and the parser follows the chain of
+segments, then however the stream is cut into receives the parser ends in `T rest`. -/
+theorem feedAll_script {f c0 : Core} {T : Bytes → St} {rest : Bytes} {e : Elem} {es : List Elem}
+    (hT1 : ∀ t, run f t = T t) (hT2 : ∀ t x, feed (T t) x = T (t ++ x))
+    (hch : Chain f c0 (e :: es)) (ps : List Bytes)
+    (hps : ps.flatten = segsOf (e :: es) ++ rest) :
+    feedAll { core := c0, msg := [] } ps = T rest := by
+  have h0 : Good f T rest { core := c0, msg := [] } (ps.flatten ++ []) := by
+    refine Or.inl ⟨c0, e, es, rfl, hch, List.nil_prefix, ?_, by simpa using hps⟩
+    exact fun h => hch.2.1.1 h.symm
+  rcases feedAll_good hT1 hT2 ps _ [] h0 with ⟨c, e', es', _, hch', hpre, hne, hB⟩ | ⟨t, ht, hr⟩
+  · exfalso
+    simp only [List.append_nil, segsOf] at hB
+    have h2 : e'.seg <+: (feedAll { core := c0, msg := [] } ps).msg := by
+      rw [hB, List.append_assoc]; exact List.prefix_append _ _
+    exact hne (List.IsPrefix.eq_of_length hpre (Nat.le_antisymm hpre.length_le h2.length_le))
+  · rw [ht]; simp at hr; rw [hr]
 
 end Ioflo.Http
